@@ -40,7 +40,12 @@ void m4ri_mmc_cleanup(void);
 /**
  * \brief Number of blocks that are cached.
  */
+#if defined(MALB_M4RI_VERIF) && defined(MALB_M4RI_VERIF_MMC_NBLOCKS)
+/* verification hook: a smaller cache makes the eviction path reachable by short histories */
+#define __M4RI_MMC_NBLOCKS MALB_M4RI_VERIF_MMC_NBLOCKS
+#else
 #define __M4RI_MMC_NBLOCKS 16
+#endif
 
 /**
  * \brief Maximal size of blocks stored in cache.
